@@ -22,7 +22,7 @@ type SpecOpts struct {
 	EmptyRules    bool     // a rule may have an empty right-hand side
 }
 
-var plainNames = []string{"x", "y", "z", "expr", "e1"}
+var plainNames = []string{"x", "y", "z", "expr", "e1", "x_opt", "y_star", "z_plus", "x_group", "item"}
 var reservedNames = []string{"star", "plus", "semi", "gen_a_opt", "gen1_group", "gen_x_star", "gen_start_plus", "gen2_star", "dot", "lparen"}
 
 // ReservedLooking reports whether a rule name lies in the name space emerge uses for synthesised rules
